@@ -176,9 +176,9 @@ def _check_closure_fn(program, ctx, rid, fn, hp, prop):
         ctx.info(rid, fn, f"{q}: no writes (read-only/network work while the region is open - listed, not a violation of atomicity)")
 
 
-def rule_kvregion(program, ctx):
-    rid = ctx.rule(
-        "C07.kvregion",
+def rule_kvregion(program, ctx, prop=P, rid="C07.kvregion"):
+    ctx.rule(
+        rid,
         "WriterThread.run: every index write / _post_save / _delete_event / bulk_update call is lexically inside the single "
         "`with env.begin(write=True)`; the `except Exception` that logs encloses the with (abort first) and is inside the while (later tasks "
         "still applied); closure (Index.write/clear/bulk_update, _post_save, _delete_event): put/delete/cursor only on the txn parameter, no "
@@ -188,7 +188,7 @@ def rule_kvregion(program, ctx):
     run = program.func("nostr_relay.storage.kv:WriterThread.run")
     regions = [w for w in walk_no_nested(run) if isinstance(w, ast.With) and any(_is_begin(i.context_expr) and any(k.arg == "write" and isinstance(k.value, ast.Constant) and k.value.value is True for k in i.context_expr.keywords) for i in w.items)]
     if len(regions) != 1:
-        ctx.bad(finding_func(P, rid, run, f"writer thread opens {len(regions)} write transactions per task", text="def run(...) :: regions"))
+        ctx.bad(finding_func(prop, rid, run, f"writer thread opens {len(regions)} write transactions per task", text="def run(...) :: regions"))
         if not regions:
             return
     region = regions[0]
@@ -197,12 +197,12 @@ def rule_kvregion(program, ctx):
     loop = next((w for w in walk_no_nested(run) if isinstance(w, ast.While)), None)
     tr = next((a for a in ancestors(region) if isinstance(a, ast.Try)), None)
     if tr is None or not any(catches(h, "exc") == "all" for h in tr.handlers) or loop is None or not any(a is loop for a in ancestors(tr)):
-        ctx.bad(finding_at(P, rid, region, "the write transaction is not enclosed by a catch-all try inside the writer loop: one failing event kills the writer thread (later events are never applied)"))
+        ctx.bad(finding_at(prop, rid, region, "the write transaction is not enclosed by a catch-all try inside the writer loop: one failing event kills the writer thread (later events are never applied)"))
     else:
         ctx.ok(rid, tr, "try/except Exception encloses the transaction and sits inside the while loop")
     for t in ast.walk(region):
         if isinstance(t, ast.Try) and t.handlers and any(_handler_swallows(h) for h in t.handlers):
-            ctx.bad(finding_at(P, rid, t, "a handler inside the write transaction swallows a failure: the transaction commits a partially applied event "
+            ctx.bad(finding_at(prop, rid, t, "a handler inside the write transaction swallows a failure: the transaction commits a partially applied event "
                                "(some index entries without record, or a record without some entries)"))
     mutators = ("write", "clear", "bulk_update", "_post_save", "_delete_event")
     for c in walk_no_nested(run):
@@ -211,9 +211,9 @@ def rule_kvregion(program, ctx):
                 if any(isinstance(a, ast.Name) and a.id == txn for a in c.args):
                     ctx.ok(rid, c, f"{call_name(c)}(…, {txn}) inside the write transaction")
                 else:
-                    ctx.bad(finding_at(P, rid, c, f"{call_name(c)} is not given the region's transaction `{txn}`"))
+                    ctx.bad(finding_at(prop, rid, c, f"{call_name(c)} is not given the region's transaction `{txn}`"))
             else:
-                ctx.bad(finding_at(P, rid, c, f"{call_name(c)} runs outside the write transaction"))
+                ctx.bad(finding_at(prop, rid, c, f"{call_name(c)} runs outside the write transaction"))
     # closure functions
     closure = [
         "nostr_relay.storage.kv:Index.write", "nostr_relay.storage.kv:Index.clear", "nostr_relay.storage.kv:Index.bulk_update",
@@ -223,7 +223,7 @@ def rule_kvregion(program, ctx):
         fn = program.func(q)
         params = [a.arg for a in fn.args.args]
         if "txn" not in params:
-            ctx.bad(finding_func(P, rid, fn, "closure function no longer receives the transaction", text=f"def {fn.name}(...)"))
+            ctx.bad(finding_func(prop, rid, fn, "closure function no longer receives the transaction", text=f"def {fn.name}(...)"))
             continue
         okf = True
         for c in walk_no_nested(fn):
@@ -232,18 +232,18 @@ def rule_kvregion(program, ctx):
             nm = call_name(c)
             if nm.endswith(".begin"):
                 okf = False
-                ctx.bad(finding_at(P, rid, c, f"{qual_of(fn)} opens its own transaction inside the event's write transaction"))
+                ctx.bad(finding_at(prop, rid, c, f"{qual_of(fn)} opens its own transaction inside the event's write transaction"))
             if isinstance(c.func, ast.Attribute) and c.func.attr in ("put", "delete", "cursor", "get", "pop", "replace") and isinstance(c.func.value, ast.Name) and c.func.value.id not in ("txn",) and c.func.value.id in ("env", "db", "self"):
                 okf = False
-                ctx.bad(finding_at(P, rid, c, f"{qual_of(fn)} writes through `{c.func.value.id}` instead of the txn parameter"))
+                ctx.bad(finding_at(prop, rid, c, f"{qual_of(fn)} writes through `{c.func.value.id}` instead of the txn parameter"))
             if ("queue" in nm and nm.endswith((".put", ".put_nowait"))) or nm.endswith("delete_event") and "self._delete_event" != nm:
                 okf = False
-                ctx.bad(finding_at(P, rid, c, f"{qual_of(fn)} defers part of the event's effects to a later task (`{nm}`): they commit in another transaction, "
+                ctx.bad(finding_at(prop, rid, c, f"{qual_of(fn)} defers part of the event's effects to a later task (`{nm}`): they commit in another transaction, "
                                    "a crash or failure in between leaves the old and the new version both stored"))
             if isinstance(c.func, ast.Attribute) and c.func.attr in mutators and isinstance(c.func.value, (ast.Name, ast.Attribute, ast.Subscript)) and fn.name in ("_post_save", "_delete_event", "clear", "bulk_update"):
                 if not any(isinstance(a, ast.Name) and a.id == "txn" for a in c.args) and not any(k.arg == "txn" for k in c.keywords):
                     okf = False
-                    ctx.bad(finding_at(P, rid, c, f"{qual_of(fn)}: `{nm}` is not given the transaction"))
+                    ctx.bad(finding_at(prop, rid, c, f"{qual_of(fn)}: `{nm}` is not given the transaction"))
         # local names bound to a txn operation: func = getattr(txn, operation) / put = txn.put
         txn_ops = {st.targets[0].id for st in walk_no_nested(fn) if isinstance(st, ast.Assign) and isinstance(st.targets[0], ast.Name)
                    and ((isinstance(st.value, ast.Call) and call_name(st.value) == "getattr" and st.value.args and dotted(st.value.args[0]) == "txn")
@@ -253,7 +253,7 @@ def rule_kvregion(program, ctx):
                 if any(isinstance(c, ast.Call) and ((isinstance(c.func, ast.Attribute) and c.func.attr in mutators + ("put", "delete")) or (isinstance(c.func, ast.Name) and c.func.id in txn_ops))
                        for s in t.body for c in ast.walk(s)):
                     okf = False
-                    ctx.bad(finding_at(P, rid, t, f"{qual_of(fn)}: a handler encloses an index write and swallows its failure"))
+                    ctx.bad(finding_at(prop, rid, t, f"{qual_of(fn)}: a handler encloses an index write and swallows its failure"))
         if okf:
             ctx.ok(rid, fn, f"{qual_of(fn)}: writes only through txn, no nested transaction, nothing deferred")
 
@@ -378,9 +378,18 @@ def rule_isolation(program, ctx, prop=P, rid="C07.isolation"):
         if isinstance(n, ast.Call) and call_name(n) == "setattr" and len(n.args) >= 2 and isinstance(n.args[1], ast.Constant) and n.args[1].value in ("isolation_level", "autocommit"):
             bad += 1
             ctx.bad(finding_at(prop, rid, n, "setattr(…, 'isolation_level', …)"))
+    # one connection per transaction: a pool class that hands the *same* connection to concurrent begin() calls merges their transactions
+    for n in ast.walk(m.tree):
+        if isinstance(n, ast.Attribute) and n.attr in ("StaticPool", "SingletonThreadPool", "AssertionPool"):
+            bad += 1
+            ctx.bad(finding_at(prop, rid, n, f"`{ast.unparse(n)}`: every `self.db.begin()` returns the same DBAPI connection, so the (up to num_concurrent_adds) add_event calls in flight "
+                               "share one driver-level transaction - a ROLLBACK for one event undoes statements already executed for another, which then commits half applied"))
+        if isinstance(n, ast.keyword) and n.arg == "poolclass" and not isinstance(getattr(n, "_parent", None), type(None)):
+            bad += 1
+            ctx.bad(finding_at(prop, rid, n.value, "the engine's pool class is overridden"))
     sp = program.func("nostr_relay.storage.db:DBStorage._set_sqlite_pragma")
     if not bad:
-        ctx.ok(rid, sp, "no transaction-mode switch in storage/db.py (connect hook only issues PRAGMAs)")
+        ctx.ok(rid, sp, "no transaction-mode switch / shared-connection pool in storage/db.py (connect hook only issues PRAGMAs)")
 
 
 def rule_ctxmgr(program, ctx, prop=P, rid="C07.ctxmgr"):
@@ -411,6 +420,85 @@ def rule_ctxmgr(program, ctx, prop=P, rid="C07.ctxmgr"):
                 ctx.ok(rid, fn, f"{qual_of(fn)}: no swallowing handler around the yield")
 
 
+def rule_enqueue(program, ctx, prop=P, rid="C07.enqueue"):
+    from ..lib import guard_atoms
+
+    ctx.rule(
+        rid,
+        "LMDB: what is handed to the writer thread does not depend on process-local memory of earlier requests - LMDBStorage.add_event enqueues (\"add\", [event]) for every "
+        "admitted non-ephemeral event and LMDBStorage.delete_event enqueues (\"del\", [id]) unconditionally; the only admissible condition is `event.is_ephemeral`. A "
+        "remembered-ids set is not rolled back when the writer's transaction aborts, and is never pruned correctly: later deliveries of that event / later deletions "
+        "are silently dropped",
+        floor=2,
+    )
+    for q, op in (("nostr_relay.storage.kv:LMDBStorage.add_event", "add"), ("nostr_relay.storage.kv:LMDBStorage.delete_event", "del")):
+        fn = program.func(q)
+        puts = [c for c in walk_no_nested(fn) if isinstance(c, ast.Call) and call_name(c).endswith("writer_queue.put") and c.args and isinstance(c.args[0], ast.Tuple) and c.args[0].elts
+                and isinstance(c.args[0].elts[0], ast.Constant) and c.args[0].elts[0].value == op]
+        if not puts:
+            ctx.bad(finding_func(prop, rid, fn, f"{qual_of(fn)} no longer enqueues the `{op}` task", text=f"def {fn.name}(...) :: enqueue"))
+            continue
+        for c in puts:
+            atoms = [(e, pol) for e, pol in guard_atoms(c, stop=fn) if not (("is_ephemeral" in ast.unparse(e)) or ("can_do" in ast.unparse(e)))]
+            if atoms:
+                e, pol = atoms[0]
+                ctx.bad(finding_at(prop, rid, c, f"{qual_of(fn)}: the `{op}` task is only enqueued when `{'' if pol else 'not '}{ast.unparse(e)[:60]}`: a decision taken from process-local memory "
+                                   "instead of the store - after an aborted write (or a deletion) the event can no longer be stored / deleted although the client is told OK"))
+            else:
+                ctx.ok(rid, c, f"{qual_of(fn)}: `{op}` enqueued for every (non-ephemeral) request")
+        # no early normal return before the enqueue in add_event
+        if op == "add":
+            from ..cfg import cfg_of
+            from ..lib import NORMAL
+            cfg = cfg_of(fn)
+            pn = {x for c in puts for x in cfg.nodes_of(enclosing_stmt(c))}
+            eph = {}
+            from ..lib import test_edges
+            eph = test_edges(cfg, lambda e, pol: "is_ephemeral" in ast.unparse(e) and pol if isinstance(e, (ast.Attribute, ast.Name, ast.Call)) else False)
+            rets = cfg.stmt_nodes(lambda st: isinstance(st, ast.Return), kinds=("stmt",))
+            avoid = dict(eph)
+            for x in pn:
+                avoid[x] = {"n", "t", "f"}
+            path = cfg.find_path([cfg.entry], rets, kinds=NORMAL, avoid_edge_kinds=avoid)
+            if path:
+                where = cfg.ast_of(path[-1])
+                ctx.bad(finding_at(prop, rid, where, "LMDBStorage.add_event can return normally (the client is answered) for a non-ephemeral event without having handed it to the writer"))
+
+
+def rule_overrides(program, ctx, prop=P, rid="C07.overrides"):
+    ctx.rule(
+        rid,
+        "a subclass override of pre_save / post_save / process_tags that delegates to super() forwards every parameter it names explicitly (`changed`, `connection`): "
+        "`def post_save(self, event, changed=True, **kwargs): await super().post_save(event, **kwargs)` hands the base class changed=None, which skips process_tags - "
+        "no tag rows, no NIP-09 deletion",
+        floor=1,
+    )
+    n = 0
+    for ci in program.classes.values():
+        if ci.module.rel.startswith("<dep>"):
+            continue
+        for name in ("pre_save", "post_save", "process_tags"):
+            fn = ci.methods.get(name)
+            if fn is None:
+                continue
+            sups = [c for c in ast.walk(fn) if isinstance(c, ast.Call) and isinstance(c.func, ast.Attribute) and c.func.attr == name and "super()" in ast.unparse(c.func.value)]
+            if not sups:
+                continue
+            n += 1
+            named = [a.arg for a in fn.args.args[1:]] + [a.arg for a in fn.args.kwonlyargs]
+            for c in sups:
+                passed = {dotted(a) for a in c.args} | {k.arg for k in c.keywords if k.arg} | {dotted(k.value) for k in c.keywords}
+                lost = [p for p in named if p not in passed and p not in ("event",) or (p == "event" and "event" not in passed)]
+                if lost:
+                    ctx.bad(finding_at(prop, rid, c, f"{ci.node.name}.{name} names `{lost[0]}` in its own signature but does not pass it to super().{name}: the base implementation "
+                                       f"sees its default instead (for `changed`: None = nothing to do)"))
+                else:
+                    ctx.ok(rid, c, f"{ci.node.name}.{name}: all named parameters forwarded to super()")
+    if not n:
+        ctx.floors[rid] = 0
+        ctx.info(rid, program.cls("nostr_relay.storage.db:DBStorage").node, "no delegating overrides")
+
+
 def run(program, ctx):
     from ..lib import rule_awaited
 
@@ -423,6 +511,8 @@ def run(program, ctx):
     rule_foreign(program, ctx)
     rule_isolation(program, ctx)
     rule_ctxmgr(program, ctx)
+    rule_enqueue(program, ctx)
+    rule_overrides(program, ctx)
     ctx.not_decided += [
         "that SQLite WAL / PostgreSQL / LMDB deliver atomic commit and recovery after kill -9 (trusted engines)",
         "Python-level faults between commit and broadcast",
